@@ -31,10 +31,9 @@ class C06(Spec):
         out = []
         for r in RULES:
             base = docs.g1_shards(1) if tier == "quick" else docs.g1_shards(2)
-            pool = _POOL[:2] if tier == "quick" else _POOL + docs.load_pool("mini")
+            pool = _POOL[:2] if tier == "quick" else _POOL
             g2 = docs.g2_shards(pool, replace=True)
-            if tier == "quick":
-                g2 = g2[::3]
+            g2 = g2[::3] if tier == "quick" else g2[::2]
             for s in base + g2:
                 out.append(self.job(dict(s, rule=r), budget=240.0 if tier == "quick" else 600.0))
         # MD013 'special elements': three independent limits (1..12) and the two switches symbolic
@@ -43,7 +42,7 @@ class C06(Spec):
         return out
 
     def bounds_text(self, tier):
-        return {"rules": RULES, "documents": "G1 length 0..1 + 2 skeletons every third position (quick) / G1 0..2 + 5 skeletons + mini pool (thorough)", "configuration": "br_spaces, maximum in 0..6; line_length unbounded Int >= 1; strict symbolic Bool; MD013 special elements: line/heading/code limits 1..12 independent, code_blocks and headings symbolic Bools"}
+        return {"rules": RULES, "documents": "G1 length 0..1 + 2 skeletons every third position (quick) / G1 0..2 + 5 skeletons every second position (thorough)", "configuration": "br_spaces, maximum in 0..6; line_length unbounded Int >= 1; strict symbolic Bool; MD013 special elements: line/heading/code limits 1..12 independent, code_blocks and headings symbolic Bools"}
 
     def readable(self, case):
         from checks.rule_real import doc_of
